@@ -198,16 +198,24 @@ Qed.
 
 (* ------------------------------------------------------------------ *)
 (** * Facts that survive the quiet steps *)
+Definition astable (F : heap_t -> Prop) : Prop :=
+  forall h o, shape o < 3 -> norefs o -> F h -> F (h ++ [o]).
 Definition cstable (F : heap_t -> Prop) : Prop :=
-  (forall h o, shape o < 3 -> norefs o -> F h -> F (h ++ [o])) /\
+  astable F /\
   (forall h c o0 o, nth_error h c = Some o0 -> shape o = shape o0 -> shape o0 < 3 ->
      (forall c', orefs c' o <= orefs c' o0) -> F h -> F (set_nth c o h)).
 
+Lemma astable_and F G : astable F -> astable G -> astable (fun h => F h /\ G h).
+Proof. intros A1 A2 h o S Nr [H1 H2]. split; auto. Qed.
+
 Lemma cstable_true : cstable (fun _ => True).
-Proof. split; auto. Qed.
+Proof. split; [intros h o _ _ _; exact I|auto]. Qed.
 
 Lemma cstable_and F G : cstable F -> cstable G -> cstable (fun h => F h /\ G h).
-Proof. intros [A1 B1] [A2 B2]. split; intros; split; destruct H3 || destruct H1; eauto. Qed.
+Proof.
+  intros [A1 B1] [A2 B2]. split; [now apply astable_and|].
+  intros h c o0 o N S Sc Le [H1 H2]. split; eauto.
+Qed.
 
 Lemma cstable_loose v : cstable (fun h => loose h v).
 Proof.
@@ -238,9 +246,9 @@ Section Quiet.
 
   Definition IF (F : heap_t -> Prop) (h : heap_t) : Prop := Inv ct h /\ F h.
 
-  Lemma IF_alloc F h o : cstable F -> shape o < 3 -> norefs o -> IF F h -> IF F (h ++ [o]) /\ loose (h ++ [o]) (VRef (length h)).
+  Lemma IF_alloc F h o : astable F -> shape o < 3 -> norefs o -> IF F h -> IF F (h ++ [o]) /\ loose (h ++ [o]) (VRef (length h)).
   Proof.
-    intros [SA _] S Nr [I Fh]. split; [split; [apply Inv_alloc; auto|auto]|].
+    intros SA S Nr [I Fh]. split; [split; [apply Inv_alloc; auto|auto]|].
     simpl. split; [rewrite app_length; simpl; lia|].
     rewrite refcount_app. simpl. rewrite (norefs_orefs o _ Nr).
     destruct I as [_ (Hc & _)]. rewrite (refcount_fresh h (length h) Hc); lia.
@@ -250,7 +258,7 @@ Section Quiet.
 
   (* type_instantiate of a non-spec type: a scalar, or a fresh empty collection *)
   Lemma instantiate_quiet rec t F :
-    cstable F -> ty_plain t ->
+    astable F -> ty_plain t ->
     T (IF F) (instantiate_ty rec t) (fun v h => IF F h /\ loose h v) (IF F).
   Proof.
     intros SF Pt.
@@ -291,7 +299,7 @@ Section Quiet.
     r = mv_old m \/ r = mv_new m \/ loose h r.
 
   Lemma mv_body_quiet rec m F :
-    cstable F -> mv_plain m ->
+    astable F -> mv_plain m ->
     T (IF F) (mutate_value_body ct rec m) (fun r h => IF F h /\ mv_res m r h) (IF F).
   Proof.
     intros SF (Hprep & Hattrs & Hxf & Hats & t & ety & Hctor & Pt & Hexp).
@@ -344,7 +352,7 @@ Section Quiet.
   Qed.
 
   Lemma mv_quiet rec m F :
-    cstable F -> mv_plain m ->
+    astable F -> mv_plain m ->
     T (IF F) (mutate_value ct rec m) (fun r h => IF F h /\ mv_res m r h) (IF F).
   Proof.
     intros SF Hm. pose proof (mv_body_quiet rec m F SF Hm) as B.
@@ -353,9 +361,294 @@ Section Quiet.
   Qed.
 
   Lemma exec_mv_quiet fuel m F :
-    cstable F -> mv_plain m ->
+    astable F -> mv_plain m ->
     T (IF F) (exec ct fuel (KMutateValue m)) (fun r h => IF F h /\ mv_res m r h) (IF F).
   Proof.
     intros SF Hm. destruct fuel as [|f]; [apply T_fail; auto|]. apply mv_quiet; auto.
   Qed.
 End Quiet.
+
+(* ------------------------------------------------------------------ *)
+(** * Leaf list attributes *)
+Lemma T_pull {A} (phi : Prop) (P : heap_t -> Prop) (m : M A) (Q : A -> heap_t -> Prop) (E : heap_t -> Prop) :
+  (phi -> T P m Q E) -> T (fun h => P h /\ phi) m Q E.
+Proof. intros H s [Ps Hp]. apply H; auto. Qed.
+
+Definition leaf_list (sp : attr_spec) (e : ty) : Prop :=
+  a_ty sp = TList e /\ scalar_ty e = true /\ shallow (a_ty sp) /\
+  a_prepare sp = None /\ a_prepare_item sp = None.
+
+Definition no_inval_table (ct : ctable) : Prop :=
+  forall k sp, In k ct -> In sp (c_attrs k) -> a_inv_by sp = [].
+
+Lemma astable_check ct v t : flat t = true -> astable (fun h => check_type FUEL ct h v t = true).
+Proof. intros Ft h o _ _ C. now apply check_flat_app. Qed.
+
+Lemma astable_loose v : astable (fun h => loose h v).
+Proof. apply cstable_loose. Qed.
+Lemma astable_inst_at l cl d : astable (inst_at l cl d).
+Proof. apply cstable_inst_at. Qed.
+
+Lemma astable_only_view ct c t : astable (fun h => only_view ct h c t).
+Proof.
+  intros h o S _ V t' (l & cl & d & k & a & sp & N & R) Ft. apply V; auto.
+  apply nth_error_snoc in N. destruct N as [[_ N]|[_ E]].
+  - exists l, cl, d, k, a, sp. tauto.
+  - subst o. simpl in S. lia.
+Qed.
+
+Lemma hpure_check ct v t : hpure (check_typeM ct v t).
+Proof. intro s. reflexivity. Qed.
+Lemma hpure_loc_of_t v : hpure (loc_of_t v).
+Proof. destruct v; simpl; hpgo. Qed.
+Lemma hpure_loc_of v : hpure (loc_of v).
+Proof. destruct v; simpl; hpgo. Qed.
+Lemma hpure_read_list v : hpure (read_list v).
+Proof. unfold read_list. apply hpure_bind; [apply hpure_loc_of_t|]. intros. hpgo. Qed.
+Lemma hpure_find_eq_index ct xs v : hpure (find_eq_index ct xs v).
+Proof. intro s. reflexivity. Qed.
+#[export] Hint Resolve hpure_check hpure_loc_of_t hpure_loc_of hpure_read_list hpure_find_eq_index : hp.
+
+Lemma hpure_seq_extractor ct sp coll voi r bi : hpure (seq_extractor ct sp coll voi r bi).
+Proof.
+  unfold seq_extractor. destruct (is_missing coll || is_missing voi); [apply hpure_ret|].
+  apply hpure_bind; [destruct bi; hpgo|]. intros b.
+  apply hpure_bind; [apply hpure_read_list|]. intros p. hpgo.
+Qed.
+
+Lemma hpure_truthy v : hpure (truthy_collection v).
+Proof. unfold truthy_collection. destruct v; hpgo. Qed.
+#[export] Hint Resolve hpure_seq_extractor hpure_truthy : hp.
+
+Section Lists.
+  Variable ct : ctable.
+  Hypothesis Hflat : flat_table ct.
+  Hypothesis Hninv : no_inval_table ct.
+  Variable rec : call -> M val.
+  Hypothesis Hrec_mv : forall m F, astable F -> mv_plain m ->
+    T (IF ct F) (rec (KMutateValue m)) (fun r h => IF ct F h /\ mv_res m r h) (IF ct F).
+  Notation IF := (IF ct).
+
+  Lemma conf_scalar_norefs h fc e o :
+    scalar_ty e = true -> check_type FUEL ct h (VRef fc) (TList e) = true ->
+    nth_error h fc = Some o -> norefs o.
+  Proof.
+    intros Se C N. destruct FUEL_SS as [f Ef]. rewrite Ef in C.
+    change (match nth_error h fc with
+            | Some (OList xs) => forallb (fun x => check_type (S f) ct h x e) xs
+            | _ => false end = true) in C.
+    rewrite N in C. destruct o; try discriminate. intros c I. simpl in I.
+    rewrite forallb_forall in C. specialize (C _ I). cbv beta in C.
+    exact (scalar_check_noref ct h (S f) e (VRef c) Se C c eq_refl).
+  Qed.
+
+  Lemma empty_list_conforms h fc e :
+    nth_error h fc = Some (OList []) -> check_type FUEL ct h (VRef fc) (TList e) = true.
+  Proof.
+    intro N. destruct FUEL_SS as [f Ef]. rewrite Ef.
+    change (match nth_error h fc with
+            | Some (OList xs) => forallb (fun x => check_type (S f) ct h x e) xs
+            | _ => false end = true).
+    rewrite N. reflexivity.
+  Qed.
+
+  (* the sequence inserter on a cell that nobody references, or that is viewed only as List[e] *)
+  Lemma seq_inserter_inv sp e fc idx item ins F :
+    leaf_list sp e -> cstable F ->
+    T (fun h => IF F h /\ check_type FUEL ct h (VRef fc) (TList e) = true /\
+                (refcount h fc = 0 \/ only_view ct h fc (TList e)))
+      (seq_inserter ct sp (VRef fc) idx item ins)
+      (fun _ h => IF F h /\ check_type FUEL ct h (VRef fc) (TList e) = true)
+      (IF F).
+  Proof.
+    intros (Ht & Se & Sh & _ & _) [_ SW] s [[I Fh] [C V]].
+    destruct (seq_inserter ct sp (VRef fc) idx item ins s) as [r s'] eqn:H.
+    destruct (seq_inserter_run ct s sp fc idx item ins r s' H) as [[-> Hr]|(xs & xs' & -> & N & ->)].
+    - destruct r as [u|err]; [exfalso; eapply Hr; eauto|]. split; auto.
+    - simpl heap.
+      assert (K : check_type FUEL ct (set_nth fc (OList xs') (heap s)) (VRef fc) (TList e) = true).
+      { apply (seq_inserter_keeps ct s sp fc idx item ins tt _ e Ht (scalar_simple _ Se) Sh C H). }
+      assert (Nr : norefs (OList xs')).
+      { eapply conf_scalar_norefs; eauto. apply nth_error_set_nth_same. apply nth_error_Some. congruence. }
+      assert (Le : forall c', orefs c' (OList xs') <= orefs c' (OList xs)).
+      { intro c'. rewrite (norefs_orefs _ c' Nr). lia. }
+      split; [split|exact K].
+      + eapply Inv_write_container; eauto; try (simpl; lia).
+        intros t Vt Ft. destruct V as [Z|V].
+        * exfalso. eapply refcount_zero_not_viewed; eauto.
+        * rewrite (V t Vt Ft). exact K.
+      + eapply SW; eauto; try (simpl; lia).
+  Qed.
+
+  Definition io_plain (io : item_op) : Prop :=
+    io_attrs io = None /\ io_transform io = None /\ io_attr_transforms io = [].
+
+  Lemma item_mv_plain sp e inst old io :
+    leaf_list sp e -> io_plain io ->
+    mv_plain (mkmv old (io_new io) (io_replace io) (PItem sp inst) (io_attrs io)
+                   (Some (ctor_of_ty (item_type (a_ty sp)))) (Some (item_type (a_ty sp)))
+                   (io_transform io) (io_attr_transforms io) false).
+  Proof.
+    intros (Ht & Se & _ & _ & Hpi) (H1 & H2 & H3). unfold mv_plain. simpl.
+    rewrite Ht. simpl. split; [split; auto; now rewrite Ht|]. split; auto. split; auto. split; auto.
+    exists e, e. unfold ctor_of_ty. destruct (scalar_nospec _ Se) as [-> _].
+    split; auto. split; auto. destruct e; simpl in *; auto; discriminate.
+  Qed.
+
+  (* one element operation on the list cell fc *)
+  Lemma mutate_collection_seq sp e inst fc io F :
+    leaf_list sp e -> io_plain io -> cstable F ->
+    (forall h, F h -> refcount h fc = 0 \/ only_view ct h fc (TList e)) ->
+    T (fun h => IF F h /\ check_type FUEL ct h (VRef fc) (TList e) = true)
+      (mutate_collection ct rec FSeq sp inst (VRef fc) io)
+      (fun r h => (IF F h /\ check_type FUEL ct h (VRef fc) (TList e) = true) /\ r = VRef fc)
+      (IF F).
+  Proof.
+    intros Hl Hio SF HV. pose proof Hl as (Ht & Se & _).
+    unfold mutate_collection. cbn [is_missing].
+    eapply T_bind with
+      (Q := fun c1 h => (IF F h /\ check_type FUEL ct h (VRef fc) (TList e) = true) /\ c1 = VRef fc).
+    { apply T_ret. intros h H. split; auto. }
+    intros coll1. apply T_pull. intros ->.
+    eapply T_bind with (Q := fun _ h => IF F h /\ check_type FUEL ct h (VRef fc) (TList e) = true).
+    { apply T_hpure; [apply hpure_seq_extractor|tauto]. }
+    intros ex. cbv zeta.
+    eapply T_bind with (Q := fun _ h => IF F h /\ check_type FUEL ct h (VRef fc) (TList e) = true).
+    { eapply T_conseq.
+      - apply (Hrec_mv _ (fun h => F h /\ check_type FUEL ct h (VRef fc) (TList e) = true)).
+        + apply astable_and; [apply SF|]. apply astable_check. unfold flat. simpl.
+          now rewrite (scalar_simple _ Se).
+        + eapply item_mv_plain; eauto.
+      - intros h [[I Fh] C]. split; auto.
+      - intros r h [[I [Fh C]] _]. split; [split|]; auto.
+      - intros h [I [Fh _]]. split; auto. }
+    intros new_item.
+    eapply T_bind.
+    { eapply T_pre; [|apply (seq_inserter_inv sp e fc (fst ex) new_item (io_insert io) F Hl SF)].
+      intros h [[I Fh] C]. split; [split; auto|]. split; auto. }
+    intros u. apply T_ret. intros h H. split; auto.
+  Qed.
+
+  (* create_collection for a list attribute: a fresh empty list *)
+  Lemma create_list sp e F :
+    a_ty sp = TList e -> astable F ->
+    T (IF F) (create_collection rec sp)
+      (fun v h => IF F h /\ exists fc, v = VRef fc /\ loose h v /\
+                                      check_type FUEL ct h v (TList e) = true)
+      (IF F).
+  Proof.
+    intros Ht SF. unfold create_collection. rewrite Ht. simpl.
+    eapply T_bind; [|intros l; apply T_ret; intros h H; exact H].
+    eapply T_pre; [|apply T_alloc]. intros h H. cbv beta.
+    destruct (IF_alloc ct Hflat F h (OList []) SF) as [H1 H2]; auto; [intros c []|].
+    split; auto. exists (length h). split; auto. split; auto.
+    apply empty_list_conforms. rewrite nth_error_app2 by lia. now rewrite Nat.sub_diag.
+  Qed.
+
+  (* add_items into a list cell nobody references yet *)
+  Lemma add_items_seq sp e inst fc items F :
+    leaf_list sp e -> cstable F ->
+    T (fun h => IF F h /\ loose h (VRef fc) /\ check_type FUEL ct h (VRef fc) (TList e) = true)
+      (add_items ct rec FSeq sp inst (VRef fc) items)
+      (fun r h => IF F h /\ loose h r)
+      (IF F).
+  Proof.
+    intros Hl SF.
+    set (G := fun h => F h /\ loose h (VRef fc)).
+    assert (SG : cstable G) by (apply cstable_and; [exact SF|apply cstable_loose]).
+    set (J := fun (c : val) h => (IF G h /\ check_type FUEL ct h (VRef fc) (TList e) = true) /\ c = VRef fc).
+    assert (Step : forall io c, io_plain io -> T (J c) (mutate_collection ct rec FSeq sp inst c io) J (IF F)).
+    { intros io c Hio. unfold J. apply T_pull. intros ->.
+      eapply T_conseq; [apply (mutate_collection_seq sp e inst fc io G Hl Hio SG)| | |].
+      - intros h [_ [_ Z]]. left. exact Z.
+      - auto.
+      - auto.
+      - intros h [I [Fh _]]. split; auto. }
+    assert (Fin : forall c h, J c h -> IF F h /\ loose h c).
+    { intros c h [[[I [Fh L]] _] ->]. split; [split|]; auto. }
+    assert (Ini : forall h, IF F h /\ loose h (VRef fc) /\ check_type FUEL ct h (VRef fc) (TList e) = true ->
+                            J (VRef fc) h).
+    { intros h [[I Fh] [L C]]. split; auto. split; auto. split; auto. split; auto. }
+    assert (Plain : forall x, io_plain (io_add x)) by (intro x; repeat split).
+    unfold add_items. destruct items; try (apply T_fail; tauto).
+    eapply T_bind; [apply T_hpure; [apply hpure_read|tauto]|]. intros o.
+    destruct o.
+    - eapply T_conseq; [apply T_foldM with (I := J); intros; apply Step; apply Plain|exact Ini|exact Fin|auto].
+    - eapply T_conseq; [apply T_foldM with (I := J); intros; apply Step; apply Plain|exact Ini|exact Fin|auto].
+    - eapply T_conseq; [apply T_foldM with (I := J); intros; apply Step; apply Plain|exact Ini|exact Fin|auto].
+    - apply T_fail. tauto.
+  Qed.
+
+  (* CollectionAttrMutator.prepare on a leaf list attribute *)
+  Lemma coll_prepare_seq sp e inst coll F :
+    leaf_list sp e -> cstable F ->
+    T (fun h => IF F h /\ loose h coll) (coll_prepare ct rec sp inst coll)
+      (fun r h => IF F h /\ loose h r) (IF F).
+  Proof.
+    intros Hl SF. pose proof Hl as (Ht & Se & _ & _ & Hpi).
+    unfold coll_prepare. rewrite Ht. cbn [family_of].
+    eapply T_bind with (Q := fun c1 h => IF F h /\ loose h c1).
+    { assert (Cr : T (fun h => IF F h /\ loose h coll) (create_collection rec sp)
+                     (fun c1 h => IF F h /\ loose h c1) (IF F)).
+      { eapply T_conseq; [apply (create_list sp e F Ht (proj1 SF))| | |auto]; [tauto|].
+        intros v h [H [fc [-> [L _]]]]. auto. }
+      destruct coll; try exact Cr; apply T_ret; auto. }
+    intros coll1.
+    eapply T_bind; [apply T_check|]. intros ok.
+    eapply T_pre with (P := fun h => IF F h /\ loose h coll1); [intros h [H _]; exact H|].
+    destruct (negb ok).
+    - set (G := fun h => F h /\ loose h coll1).
+      eapply T_bind.
+      { eapply T_conseq with (P := IF G) (E := IF G).
+        - apply (create_list sp e G Ht). apply astable_and; [apply SF|apply astable_loose].
+        - intros h [[I Fh] L]. split; [exact I|split; auto].
+        - intros a h H; exact H.
+        - intros h [I [Fh _]]. split; auto. }
+      intros fresh.
+      eapply T_pre with (P := fun h => exists fc, fresh = VRef fc /\ (IF F h /\ loose h (VRef fc) /\
+                                          check_type FUEL ct h (VRef fc) (TList e) = true)).
+      { intros h [[I [Fh _]] [fc [-> [L C]]]]. exists fc. split; auto. split; [split; auto|auto]. }
+      intros s [fc [-> H]]. apply (add_items_seq sp e inst fc coll1 F Hl SF s H).
+    - eapply T_bind; [apply T_hpure; [apply hpure_truthy|]|].
+      { intros h [H _]. exact H. }
+      intros t. rewrite Hpi. apply T_ret. auto.
+  Qed.
+
+  Lemma attr_mv_plain sp e v :
+    leaf_list sp e ->
+    mv_plain (mkmv VMissing v false
+                (match a_prepare sp with Some f => PAttr f | None => PNone end)
+                None (Some (ctor_of_ty (a_ty sp))) (Some (a_ty sp)) None [] false).
+  Proof.
+    intros (Ht & _ & _ & Hp & _). unfold mv_plain. simpl. rewrite Hp, Ht.
+    split; [exact I|]. split; auto. split; auto. split; auto.
+    exists (TList e), (TList e). split; auto. split; auto. exact I.
+  Qed.
+
+  (* prepare_attr_value on a leaf list attribute: the result is the argument or a fresh cell *)
+  Lemma prepare_attr_value_seq sp e inst v F :
+    leaf_list sp e -> cstable F ->
+    T (fun h => IF F h /\ loose h v) (prepare_attr_value ct rec sp inst v None)
+      (fun r h => IF F h /\ loose h r) (IF F).
+  Proof.
+    intros Hl SF. pose proof Hl as (Ht & _).
+    assert (B : T (fun h => IF F h /\ loose h v)
+                  (v' <- rec (KMutateValue (mkmv VMissing v false
+                                (match a_prepare sp with Some f => PAttr f | None => PNone end)
+                                None (Some (ctor_of_ty (a_ty sp))) (Some (a_ty sp)) None [] false)) ;;
+                   if ty_is_collection (a_ty sp) then coll_prepare ct rec sp inst v' else ret v')
+                  (fun r h => IF F h /\ loose h r) (IF F)).
+    { eapply T_bind with (Q := fun v' h => IF F h /\ loose h v').
+      - eapply T_conseq.
+        + apply (Hrec_mv _ (fun h => F h /\ loose h v)).
+          * apply astable_and; [apply SF|apply astable_loose].
+          * eapply attr_mv_plain; eauto.
+        + intros h [[I Fh] L]. split; auto.
+        + intros r h [[Iv [Fh L]] R]. split; [split; auto|].
+          destruct R as [->|[->|R]]; [exact I|exact L|exact R].
+        + intros h [I [Fh _]]. split; auto.
+      - intros v'. rewrite Ht. cbn [ty_is_collection ty_is_list orb].
+        eapply coll_prepare_seq; eauto. }
+    unfold prepare_attr_value. destruct v; try exact B. apply T_ret. auto.
+  Qed.
+End Lists.
